@@ -331,6 +331,52 @@ def r12_8(chk, tier):
             chk.fail('R12.8', site, (b if db else a)['file'], (b if db else a)['l'], 'slice::%s differs between the two libraries: only jsonpath: [%s]; only jmespath: [%s]' % (
                 name, '; '.join(show(x) for x in da[:3]), '; '.join(show(x) for x in db[:3])), {'only_jsonpath': [show(x) for x in da], 'only_jmespath': [show(x) for x in db]}, a['q'])
 
+def r12_12(chk, facts):
+    """Normalised paths exist whenever something is going to be done with them."""
+    chk.rule('R12.12', 'path generation mask: both overloads of path_generator::generate (array index, member name) build a path node under the '
+                       'same option mask, and that mask contains result_options::path and every option whose post-processing in '
+                       'path_expression::evaluate orders or de-duplicates the selected nodes by their paths (the options of its '
+                       '`require_more` mask: nodups, sort, sort_descending); with an option missing the nodes all carry the path of the '
+                       'root and the sort or the de-duplication has nothing to work on', floor=3)
+    def enum_set(e):
+        return frozenset(y.get('n') for y in A.walk(e) if y.get('k') == 'DeclRefExpr' and y.get('dk') == 'EnumConstant')
+    def masks(fn):
+        out = []
+        for d in A.walk_no_lambda(fn['body']):
+            if d.get('k') == 'VarDecl' and d.get('init') is not None and 'result_options' in fn['_types'][d['t'] - 1] and len(enum_set(d['init'])) >= 2:
+                out.append((d, enum_set(d['init'])))
+        return out
+    gens = {}
+    for f in facts.functions:
+        if f['n'] == 'generate' and 'path_generator' in (f.get('cls') or '') and f.get('body') is not None and not f.get('dep'):
+            gens.setdefault((f['file'], f['l']), f)
+    chk.require(len(gens) >= 2, 'R12.12: path_generator::generate overloads not found')
+    need = set()
+    for f in facts.functions:
+        if f['n'] == 'evaluate' and 'path_expression' in (f.get('cls') or '') and f.get('body') is not None and not f.get('dep'):
+            for d, es in masks(f):
+                # the mask that decides whether the nodes are collected for post-processing
+                if any(A.callee_name(c) in ('sort', 'unique') for c in A.calls_in(f['body'])): need |= es
+            if need: chk.analysed(f); break
+    chk.require(need, 'R12.12: post-processing mask of path_expression::evaluate not found')
+    need = frozenset(need | {'path'})
+    gm = {}
+    for key, f in sorted(gens.items()):
+        chk.analysed(f)
+        ms = masks(f)
+        chk.require(ms, 'R12.12: %s at line %s has no option mask' % (f['q'], f['l']))
+        gm[key] = (f, ms[0][1], ms[0][0])
+        site = U.site(f, 'generate@%s mask' % f['l'])
+        if need <= ms[0][1]: chk.ok('R12.12', site, {'mask': sorted(ms[0][1]), 'needed': sorted(need)})
+        else:
+            chk.fail('R12.12', site, f['file'], ms[0][0].get('l'), 'path_generator::generate builds path nodes only under {%s}; evaluate() post-processes by path under {%s}: with '
+                     '%s alone the nodes have no paths to order or compare' % (', '.join(sorted(ms[0][1])), ', '.join(sorted(need)), ', '.join(sorted(need - ms[0][1]))), None, f['q'])
+    vals = set(v[1] for v in gm.values())
+    site = 'include/jsoncons_ext/jsonpath/jsonpath_selector.hpp path_generator::generate overloads agree'
+    if len(vals) == 1: chk.ok('R12.12', site, None)
+    else: chk.fail('R12.12', site, list(gm.values())[0][0]['file'], list(gm.values())[0][2].get('l'), 'the index and the name overload of path_generator::generate use different option masks: %s' % (
+        [sorted(v) for v in vals]), None, list(gm.values())[0][0]['q'])
+
 def r12_9(chk, facts):
     """A callback that runs once per selected node must not consume what it captured."""
     chk.rule('R12.9', 'per-node callbacks: inside the lambdas that json_replace / json_query hand to evaluate() (invoked once per selected node) no '
@@ -568,6 +614,7 @@ def run(chk, tier, only_rule=None):
     r12_9(chk, facts)
     r12_10(chk, facts)
     r12_11(chk, facts)
+    r12_12(chk, facts)
     r12_8(chk, tier)
     r12_5(chk, tier)
     c05.r05_6(chk, tier, units=['jsonpath'], floor=80)
